@@ -36,7 +36,9 @@ struct Prov(Rc<RefCell<Vec<LanguageIdentifier>>>);
 impl LocalesProvider for Prov {
     type Iter = std::vec::IntoIter<LanguageIdentifier>;
     fn locales(&self) -> Self::Iter {
-        self.0.borrow().clone().into_iter()
+        // through the crate's own provider for `Vec<LanguageIdentifier>`, so that it is exercised as well
+        let v: Vec<LanguageIdentifier> = self.0.borrow().clone();
+        LocalesProvider::locales(&v)
     }
 }
 
